@@ -33,6 +33,11 @@ CHECKS = {
     ref="DESIGN.md §3 C03",
     note="Trusted: the reference model (its own bugs surface as disagreement on the unchanged tree), exact-rational IEEE-754 codec, Python codecs. Ill-typed build objects are not generated.",
     technique="differential testing against a reference model: exhaustive enumeration of small domains + Hypothesis for composites"),
+ "C06": dict(
+    text="Core-class spec trees (plus Select/Optional/Peek/Pointer/Union/RawCopy/Terminated templates) are parsed on random, boundary-biased, huge-length and mutated-canonical byte strings through an operation-counting stream with a CPU-time bound: the outcome must be a value or a ConstructError. Every strict prefix of every canonical encoding of specs without greedy/optional/look-ahead parts must raise exactly StreamError. For parse and build, the k-th stream operation is made to fail for every k and every fault kind (OSError, ValueError, UnsupportedOperation, short read, short write) and streams are made non-seekable/non-tellable: the outcome must be the fault-free one or StreamError, never a foreign exception nor (for specs without failure-absorbing parts) different values/bytes.",
+    ref="DESIGN.md §3 C06",
+    note="Termination is decided up to a stream-operation budget on the outer stream plus 10 CPU-seconds per input of a few dozen bytes. Excluded by documentation: Compressed/Pickled/Numpy/Timestamp/Encrypted, data-dependent Restreamed widths, zero-width repetition. A read(n>=2) returning n-1 bytes is the short-read fault; zero bytes is ordinary EOF.",
+    technique="fuzzing with structured generators (Hypothesis) + systematic fault injection over every stream-operation index; oracle = exception class / fault-free differential"),
 }
 
 NOT_APPLICABLE = [dict(property_id=p, reason="check not yet built in this revision of /verif (planned, see DESIGN.md §3)") for p in ALL if p not in CHECKS]
